@@ -393,7 +393,7 @@ def run_region(ck: Check):
                 {'expr': src, 'expected': exp.__name__, 'got': got})
     # the greedy partitioner's use: depends_on must be acyclic on any family
     # of pairwise non-overlapping regions cut out of a circuit -> topo_sort
-    ntopo = run_topo(ck, rng, 400 if thorough else 60)
+    ntopo = run_topo(ck, rng, 20000 if thorough else 2500)
     ck.coverage['region_algebra'] = {
         'cases': len(cases), 'interval_pairs': len(all_ivs(IV_MAX)) ** 2,
         'small_regions_exhaustive_unary': len(small),
@@ -405,62 +405,140 @@ def run_region(ck: Check):
     }
 
 
+def gen_family(rng):
+    """regions tiling a grid (per qudit the cycles are cut into runs; runs of
+    neighbouring qudits that overlap in time are glued), as a partitioner
+    would select them; plus, sometimes, arbitrary (overlapping) regions"""
+    nq = rng.randint(2, 6)
+    depth = rng.randint(2, 7)
+    x = rng.random()
+    if x < 0.1:
+        return [rand_region(rng, nq, depth) for _ in range(rng.randint(1, 6))]
+    if x < 0.25:
+        # a ring: region i shares qudit i with region i+1, which lies before
+        # it there (a dependency cycle); with probability 1/2 one link is
+        # turned round, which makes the family sortable again
+        k = rng.randint(3, 6)
+        fam = [dict() for _ in range(k)]
+        broken = rng.randrange(k) if rng.random() < 0.5 else None
+        for i in range(k):
+            a, b = (1, 0) if i != broken else (0, 1)
+            fam[i][i] = (2 * a, 2 * a + rng.randint(0, 1))
+            fam[(i + 1) % k][i] = (2 * b, 2 * b + rng.randint(0, 1))
+        rng.shuffle(fam)
+        return fam
+    regions = []
+    cuts = {}
+    for q in range(nq):
+        pts = sorted(rng.sample(range(1, depth),
+                                rng.randint(0, min(3, depth - 1))))
+        cuts[q] = list(zip([0] + pts, [p - 1 for p in pts] + [depth - 1]))
+    used = set()
+    for q in range(nq):
+        for iv in cuts[q]:
+            if (q, iv) in used:
+                continue
+            reg = {q: iv}
+            used.add((q, iv))
+            qq = q
+            while qq + 1 < nq and rng.random() < 0.55:
+                nxt = [iv2 for iv2 in cuts[qq + 1]
+                       if (qq + 1, iv2) not in used
+                       and iv2[0] <= reg[qq][1] and reg[qq][0] <= iv2[1]]
+                if not nxt:
+                    break
+                reg[qq + 1] = rng.choice(nxt)
+                used.add((qq + 1, reg[qq + 1]))
+                qq += 1
+            regions.append(reg)
+    rng.shuffle(regions)
+    return regions
+
+
 def run_topo(ck: Check, rng, n):
-    """`GreedyPartitioner.topo_sort` on families of disjoint regions taken
-    from a real partition: the returned order must respect `depends_on` and
-    be a permutation."""
+    """`GreedyPartitioner.topo_sort` against its transcription
+    (`bqdriver region: topo`, the subject of C08_topo_sort) and against the
+    definition: the output is a permutation in which every region comes after
+    the regions it depends on; RuntimeError only when a dependency cycle
+    exists among the regions (checked by an independent DFS)."""
     from bqskit.ir.region import CircuitRegion
     from bqskit.passes.partitioning.greedy import GreedyPartitioner
     gp = GreedyPartitioner(3)
-    done = 0
-    for _ in range(n):
-        nq = rng.randint(2, 6)
-        depth = rng.randint(2, 7)
-        # tile the grid: per qudit cut [0, depth) into runs, glue runs of
-        # neighbouring qudits that start at the same cycle into one region
-        regions = []
-        cuts = {}
-        for q in range(nq):
-            pts = sorted(rng.sample(range(1, depth), rng.randint(0, min(2, depth - 1))))
-            cuts[q] = list(zip([0] + pts, [p - 1 for p in pts] + [depth - 1]))
-        used = set()
-        for q in range(nq):
-            for iv in cuts[q]:
-                if (q, iv) in used:
-                    continue
-                reg = {q: iv}
-                used.add((q, iv))
-                if q + 1 < nq and rng.random() < 0.6:
-                    for iv2 in cuts[q + 1]:
-                        if (q + 1, iv2) not in used and iv2[0] <= iv[1] \
-                                and iv[0] <= iv2[1]:
-                            reg[q + 1] = iv2
-                            used.add((q + 1, iv2))
-                            break
-                regions.append(CircuitRegion(reg))
-        rng.shuffle(regions)
+    fams = [gen_family(rng) for _ in range(n)]
+    # the 4-cycle of the non-vacuity example and a chain, always
+    fams.append([{0: (1, 1)}, {1: (1, 1), 0: (0, 0)}, {1: (0, 0), 2: (1, 1)},
+                 {2: (0, 0), 0: (2, 2)}])
+    fams.append([{0: (2, 2)}, {0: (1, 1)}, {0: (0, 0)}])
+    lines = ['topo ' + ' '.join(s_region_ordered(d) for d in fam)
+             for fam in fams]
+    model = ck.driver('region', lines)
+    stats = {'sorted': 0, 'raised': 0}
+    for fam, line, mline in zip(fams, lines, model):
+        regions = [CircuitRegion(d) for d in fam]
         try:
             out = gp.topo_sort(list(regions))
+            impl = s_nats([next(i for i, r in enumerate(regions) if r is o)
+                           for o in out])
         except RuntimeError:
-            # cyclic families exist (two regions each partly before the other
-            # cannot happen with `depends_on` = ALL shared qudits, but longer
-            # cycles can): not a property of the algebra
-            continue
-        done += 1
-        ck.count(('topo', tuple(sorted(str(r) for r in regions))))
-        pos = {id(r): i for i, r in enumerate(out)}
-        ok = len(out) == len(regions) and {id(r) for r in out} == {id(r) for r in regions}
-        if ok:
-            for r in regions:
-                for s in regions:
-                    if r is not s and r.depends_on(s) and pos[id(s)] > pos[id(r)]:
-                        ok = False
-        if not ok:
+            out = None
+            impl = '!runtime'
+        ck.count(('topo', line))
+        stats['sorted' if out is not None else 'raised'] += 1
+        n_ = len(fam)
+        dep = [[i != j and bool(cells(fam[i])) is not None
+                and oracle_dep(fam[i], fam[j]) for j in range(n_)]
+               for i in range(n_)]
+        if out is not None:
+            idx = [int(x) for x in impl.split(',')] if impl != '-' else []
+            ok = sorted(idx) == list(range(n_)) and all(
+                idx.index(j) < idx.index(i)
+                for i in range(n_) for j in range(n_) if dep[i][j])
+            if not ok:
+                ck.violation(
+                    'region:topo-sort-order',
+                    'GreedyPartitioner.topo_sort returned an order in which '
+                    'a region precedes one it depends on (or lost / repeated '
+                    f'a region): regions {fam}, output indices {impl}',
+                    {'regions': fam, 'out': impl, 'case': line})
+        else:
+            if not has_cycle(dep):
+                ck.violation(
+                    'region:topo-sort-raises-acyclic',
+                    'GreedyPartitioner.topo_sort raised RuntimeError although '
+                    f'the dependencies of {fam} are acyclic',
+                    {'regions': fam, 'case': line})
+        if impl != mline:
             ck.violation(
-                'region:topo-sort-order',
-                'GreedyPartitioner.topo_sort returned an order in which a '
-                'region precedes one it depends on (or lost a region): '
-                + str([str(r) for r in regions]),
-                {'regions': [str(r) for r in regions],
-                 'out': [str(r) for r in out]})
-    return done
+                'region-model:topo',
+                f'correspondence Model/Region.lean topoSortRegions vs '
+                f'GreedyPartitioner.topo_sort broken on {line!r}: '
+                f'implementation {impl}, model {mline} (C08_topo_sort no '
+                f'longer describes this code)',
+                {'case': line, 'impl': impl, 'model': mline},
+                found_input=False)
+    ck.coverage['traces_validated_against_impl'] += len(fams)
+    ck.coverage['topo_sort'] = dict(stats, families=len(fams))
+    return len(fams)
+
+
+def oracle_dep(d, e):
+    """d depends on e: they share a qudit and on every shared qudit all of e
+    is before all of d"""
+    shared = set(d) & set(e)
+    return bool(shared) and all(
+        x < y for q in shared for x in col(e, q) for y in col(d, q))
+
+
+def has_cycle(dep):
+    n = len(dep)
+    color = [0] * n
+
+    def dfs(i):
+        color[i] = 1
+        for j in range(n):
+            if dep[i][j]:
+                if color[j] == 1 or (color[j] == 0 and dfs(j)):
+                    return True
+        color[i] = 2
+        return False
+    return any(color[i] == 0 and dfs(i) for i in range(n))
